@@ -40,7 +40,7 @@ class PartitionMonitor:
         self.obs = dict(membership_tests=0, hook_calls=0, bound_insertions=0, points_moved_to_transfer=0,
                         transfers=0, later_bound_rejections=0, max_bounds=0, checks_at_write=0,
                         checks_at_run_exit=0, checks_after_fault=0, checks_on_resume=0, transfer_candidates_checked=0,
-                        shell_checks_reused=0)
+                        shell_checks_reused=0, empty_shells_removed=0)
         self.driver = None
         self.verified = {}
 
@@ -52,6 +52,10 @@ class PartitionMonitor:
     def check(self, s, where, shells=None):
         self.obs['hook_calls'] += 1
         nb = len(s.bounds)
+        if nb < getattr(self, '_nb_last', 0) and s.explored:
+            self.obs['empty_shells_removed'] += self._nb_last - nb
+            self.verified = {}
+        self._nb_last = nb
         self.obs['max_bounds'] = max(self.obs['max_bounds'], nb)
         if len(s.points) != nb:
             self.bad('partition.shell-count', 'len(points)=%d but %d bounds' % (len(s.points), nb), s, where)
